@@ -20,10 +20,13 @@ fn rule_sets() -> Vec<(&'static str, Vec<Rule>)> {
 }
 
 const TAGS: [&str; 6] = ["1.2.3", "0.0.0", "1.2.3-rc.1", "1.2.3-alpha.5.post.2", "1.2.3.post3", "2!1.2.3"];
-const BRANCHES: [Option<&str>; 27] = [None, Some("main"), Some("develop"), Some("developx"), Some("release"), Some("release/1"), Some("release/1/x"), Some("release/x"),
+const BRANCHES: [Option<&str>; 39] = [None, Some("main"), Some("develop"), Some("developx"), Some("release"), Some("release/1"), Some("release/1/x"), Some("release/x"),
     Some("release/x/7"), Some("release/007"), Some("releasex"), Some("release1"), Some("releases/2"), Some("feature/7/foo"), Some("99"), Some("a/b/10"), Some("a/3"),
     Some("feature/4294967296"), Some("fé"), Some("staging"), Some("qa/5"), Some("qa/x"), Some("qa"),
-    Some("feature/+5/login"), Some("release/+7"), Some("a/-3"), Some("feature/99999999999/7")];
+    Some("feature/+5/login"), Some("release/+7"), Some("a/-3"), Some("feature/99999999999/7"),
+    // white space, non-ASCII digit, case, empty / leading segments, zero, an exact-rule name used as a prefix
+    Some("release/1 "), Some("release/ 1"), Some("release/٣"), Some("release/1_2"), Some("RELEASE/1"), Some("release//5"), Some("/release/1"), Some("release/0"),
+    Some("release/00"), Some("develop/3"), Some("release/1/2"), Some("release/x/")];
 
 #[derive(Clone, Debug)]
 struct Case { tag: usize, branch: usize, distance: Option<u64>, dirty_flag: usize, post: Option<u64>, label: Option<&'static str>, num: Option<u32>, mode: Option<&'static str>, rules: usize, hash_len: Option<usize>, stdin: bool }
